@@ -144,7 +144,7 @@ def _variant(doc) -> int:
     return zlib.crc32(repr(doc).encode("utf-8", "replace"))
 
 
-COMMON = gen.Profile("common", strings="alpha", bool_with_01=False, numeric_strings=False, none=False, big_ints=False, floats=True,
+COMMON = gen.Profile("common", strings="alpha", bool_with_01=True, numeric_strings=False, none=False, big_ints=False, floats=True,
                      empty_strings=False, alpha="abcxyz")
 
 
@@ -173,7 +173,7 @@ def common_data(r, depth=0, root=True):
         if y < 0.4:
             return gen.gstr(r, COMMON)
         if y < 0.7:
-            return r.choice([2, 3, 7, 10, 12, 100, 123456, -2, -10, 2**31, 2**40, 2**62])
+            return r.choice([0, 1, 1, 2, 3, 7, 10, 12, 100, 123456, -1, -2, -10, 2**31, 2**40, 2**62])
         if y < 0.85:
             return r.choice([1.5, 2.25, -0.5, 3.14159, 12.5, 1e-07, 1e+20 + 0.5e4])
         return r.choice([True, False])
